@@ -3,7 +3,7 @@ from harness.common import Case, hx, unhx, toks_str, Fields, tx_to_line, line_to
 from harness import gen as G, taptree as TT
 from harness.props.c08 import priv_with_parity, param_validation  # noqa: same curve validation
 
-KINDS = 'ms'
+KINDS = 'gms'
 RULE = ('secrets across [1,n-1] with both parities of d*G forced and output keys of both parities occurring; script trees of C08 (all shapes '
         '<= 4 leaves, random deeper ones), raw 32-byte roots, no tree; seven hash types; key path (tweak) and script path (no tweak); final bytes '
         'compared with the Lean transcription; every implementation signature is checked with the Spec BIP340 verifier under the output key of the '
@@ -14,7 +14,33 @@ ASSUMPTIONS = ['CurveLaws (hypothesis of keypath_key_matches / keypath_sig_verif
 TYPES = [0, 1, 2, 3, 0x81, 0x82, 0x83]
 
 
+def tweak_cases(ctx):
+    """the key tweaks of utils.py (and full_pubkey_gen): implementation vs the code generated from the current source"""
+    from bitcoinutils.keys import PrivateKey
+    rng = ctx.rng
+    N = 0xFFFFFFFFFFFFFFFFFFFFFFFFFFFFFFFEBAAEDCE6AF48A03BBFD25E8CD0364141
+    # (the generated code is interpreted: a scalar multiplication takes a fraction of a second, hence the small quick-tier volume)
+    tell = [d for _, d in G.telling_secrets()]
+    secrets = (tell if ctx.thorough else rng.sample(tell, min(3, len(tell)))) + [1, N - 1] + [rng.randrange(1, N) for _ in range(ctx.n(2, 150))]
+    for d in secrets:
+        k = d.to_bytes(32, 'big')
+        pub = PrivateKey(secret_exponent=d).get_public_key().to_bytes()
+        yield Case(f'full_pubkey {hx(k)}', 'g', nontrivial=True, tag='tweak-fullpub')
+        yield Case(f'negate {hx(k)}', 'g', nontrivial=True, tag='tweak-negate')
+        ts = [0, 1, N - 1, N - d, rng.randrange(N), rng.getrandbits(256)]
+        for t in (ts if ctx.thorough else rng.sample(ts, 2)):
+            yield Case(f'tweak_pub {hx(pub)} {t}', 'g', nontrivial=True, tag='tweak-pub')
+            yield Case(f'tweak_priv {hx(k)} {t}', 'g', nontrivial=True, tag='tweak-priv')
+    # out-of-range secrets and malformed public keys: the error paths
+    for k in (bytes(32), N.to_bytes(32, 'big'), b'\xff' * 32, b'', b'\x01', bytes(31) + b'\x01' + b'\x00'):
+        yield Case(f'full_pubkey {hx(k) if k else "-"}', 'g', nontrivial=True, tag='tweak-bad-secret', domain=False)
+        yield Case(f'tweak_priv {hx(k) if k else "-"} 5', 'g', nontrivial=True, tag='tweak-bad-secret', domain=False)
+    for pub in (bytes(64), b'\x01' * 32, b'', b'\x02' * 33):
+        yield Case(f'tweak_pub {hx(pub) if pub else "-"} 7', 'g', nontrivial=True, tag='tweak-bad-pub', domain=False)
+
+
 def cases(ctx):
+    yield from tweak_cases(ctx)
     rng = ctx.rng
     names = G.op_names()
     trees = []
@@ -119,6 +145,16 @@ KEYS = {}
 
 
 def impl(op, a, ctx):
+    if op in ('full_pubkey', 'negate', 'tweak_pub', 'tweak_priv'):
+        from bitcoinutils import utils as U, schnorr as S
+        F = Fields(a)
+        k = F.bytes()
+        if op == 'full_pubkey': return 'ok ' + hx(S.full_pubkey_gen(k))
+        if op == 'negate': return 'ok ' + U.negate_privkey(k)
+        t = F.int()
+        if op == 'tweak_pub':
+            q, odd = U.tweak_taproot_pubkey(k, t); return f'ok {hx(q)} {1 if odd else 0}'
+        return 'ok ' + hx(U.tweak_taproot_privkey(k, t))
     from bitcoinutils.keys import PrivateKey
     from bitcoinutils.script import Script
     F = Fields(a)
